@@ -343,11 +343,18 @@ impl<'a> Model for InfModel<'a> {
         }
         // liveness from this (reachable) state for valid streams, if the usual None-loop is still legal
         if self.liveness && matches!(self.c.kind, Kind::Valid | Kind::Trailing) && !s.finish_seen && !s.data_err && !s.buf_sticky && !s.ended {
+            let long_plain = self.c.data.len() + self.c.expected.len() > 20_000;
             for (chunk, room) in [(usize::MAX, LARGE), (1usize, 1usize), (3, 7)] {
-                if (chunk == 1) && self.c.data.len() + self.c.expected.len() > 20_000 {
+                if (chunk == 1) && long_plain {
                     continue;
                 }
                 self.liveness_from(s, path, chunk, room);
+            }
+            if long_plain && self.c.data.len() <= 2000 {
+                // long plaintext from a short stream: byte-wise input (so every stream byte, the
+                // trailer bytes included, arrives in its own call) and window-sized output steps
+                self.liveness_from(s, path, 1, LARGE);
+                self.liveness_from(s, path, usize::MAX, 1000);
             }
         }
     }
@@ -355,6 +362,32 @@ impl<'a> Model for InfModel<'a> {
     fn complete(&self, _s: &mut St, _path: &mut Vec<Act>) {
         // the depth bound cuts here; liveness is evaluated by at_end from the cut state
     }
+}
+
+/// A short valid stream whose plaintext has exactly `n` bytes ("ab" + distance-2 matches).
+pub fn exact_len_stream(n: usize, zlib: Option<(u8, u8)>) -> GenStream {
+    use crate::refmodel::Token;
+    let mut b = crate::gen::StreamBuilder::new(zlib);
+    b.stored(b"ab", false);
+    let mut toks = vec![];
+    let mut left = n - 2;
+    while left >= 258 + 3 || left == 258 {
+        toks.push(Token::Match { len: 258, dist: 2 });
+        left -= 258;
+    }
+    if left > 258 {
+        toks.push(Token::Match { len: 200, dist: 2 });
+        left -= 200;
+    }
+    if left >= 3 {
+        toks.push(Token::Match { len: left as u16, dist: 2 });
+        left = 0;
+    }
+    for _ in 0..left {
+        toks.push(Token::Lit(b'q'));
+    }
+    b.fixed(&toks, true);
+    b.finish()
 }
 
 pub fn cases(th: bool) -> Vec<Case> {
@@ -374,6 +407,14 @@ pub fn cases(th: bool) -> Vec<Case> {
     let z: Vec<u8> = (0..33000usize).map(|i| (i % 251) as u8).collect();
     b.stored(&z, false).fixed(&[crate::refmodel::Token::Lit(b'x'), crate::refmodel::Token::Match { len: 258, dist: 32768 }], true);
     valid.push(b.finish());
+    // plaintext lengths around the window size and its multiples (the wrapper hands its 32 KiB
+    // window out in pieces: the hand-off with the window exactly full, one short, one over), from
+    // short match-heavy streams so that full-depth schedules reach the end of the stream
+    for n in [32767usize, 32768, 32769, 65536, 65537] {
+        for zl in [None, Some((7u8, 2u8))] {
+            valid.push(exact_len_stream(n, zl));
+        }
+    }
     for s in &valid {
         let fmts: Vec<DataFormat> = if s.zlib { vec![DataFormat::Zlib, DataFormat::ZLibIgnoreChecksum] } else { vec![DataFormat::Raw] };
         for fmt in fmts {
@@ -427,7 +468,7 @@ pub fn run(tier: &str) -> i32 {
     let dedup_depth = if th { 12 } else { 7 };
     let res = par_for(cs.len() * 2, || (Stats::default(), BTreeMap::<&'static str, u64>::new()), |ix, acc| {
         let c = &cs[ix / 2];
-        let big = c.data.len() > 1000;
+        let big = c.data.len() > 1000 || c.expected.len() > 20_000;
         watchdog::tick(ix as u64, 0);
         let m = InfModel { c, rep: &rep, cov: Mutex::new(BTreeMap::new()), liveness: true };
         let mut d = if ix % 2 == 0 {
